@@ -644,6 +644,14 @@ async fn run_scenario(t: &Template, sc: &Scenario, work: &Path) -> Value {
                                     let what = if l.len() != fo.len() { "folder_set".to_string() } else {
                                         let mut w = "content".to_string();
                                         for (x, y) in l.iter().zip(fo.iter()) {
+                                            for k in ["name", "flags", "description"] {
+                                                if x[k] != y[k] {
+                                                    w = format!("folder_{}", k);
+                                                    if std::env::var("SYNCX_DEBUG").is_ok() {
+                                                        eprintln!("  reload diff dev{} {}: live={} reloaded={}", d, k, x[k], y[k]);
+                                                    }
+                                                }
+                                            }
                                             let (a, b) = (x["secrets"].as_array().unwrap().len(), y["secrets"].as_array().unwrap().len());
                                             if b > a { w = "deleted_secret_back_after_reload".into(); } else if b < a { w = "secret_missing_after_reload".into(); }
                                         }
